@@ -130,6 +130,7 @@ fn prover_part<H: ElementHasher<BaseField = f64::BaseElement> + Sync + Send>(nam
             aux_degs: vec![1, 2],
             aux_rands: 2,
             lagrange: true,
+            meta: vec![],
             aux_asserts: vec![
                 AsrSpec { kind: "single".into(), col: 0, first: n - 1, stride: 0, count: 1 },
                 AsrSpec { kind: "single".into(), col: 1, first: 0, stride: 0, count: 1 },
